@@ -223,3 +223,43 @@ Definition model (L tmask : N) (vs : list view) (is : list inst) (h : list event
   let '(ds, feeds) := build vs is in
   let cfgs := map (cfg_of L tmask) ds in
   p_run ds cfgs feeds h (map (fun _ => s_empty) ds).
+
+(** ** histogram.go in full: buckets.bin / buckets.sum / histValues.measure, histogram.delta / cumulative *)
+Fixpoint incr (i : nat) (l : list N) : list N :=
+  match l, i with
+  | [], _ => []
+  | x :: r, O => (x + 1) :: r
+  | x :: r, S i' => x :: incr i' r
+  end.
+
+(** A new [buckets] value has min = max = the first value; [bin] then moves min, else max. *)
+Definition hstep (bounds : list Z) (nosum : bool) (old : option hval) (v : Z) : hval :=
+  let idx := bidx bounds v in
+  match old with
+  | None =>
+      {| h_counts := incr idx (repeat 0 (S (length bounds))); h_count := 1;
+         h_total := if nosum then 0%Z else v; h_min := v; h_max := v |}
+  | Some b =>
+      {| h_counts := incr idx (h_counts b); h_count := h_count b + 1;
+         h_total := if nosum then h_total b else (h_total b + v)%Z;
+         h_min := if (v <? h_min b)%Z then v else h_min b;
+         h_max := if (v <? h_min b)%Z then h_max b else if (h_max b <? v)%Z then v else h_max b |}
+  end.
+
+Fixpoint gupsert {A} (k : aset) (f : option A -> A) (st : list (aset * A)) : list (aset * A) :=
+  match st with
+  | [] => [(k, f None)]
+  | (k', p) :: r => if aset_eqb k k' then (k', f (Some p)) :: r else (k', p) :: gupsert k f r
+  end.
+
+Definition h_record (c : scfg) (bounds : list Z) (a : aset) (v : Z) (st : hpoints) : hpoints :=
+  let fa := set_filter (s_filter c) a in
+  let key := limiter (s_limit c) fa (map fst st) in
+  gupsert key (fun old => hstep bounds (hist_nosum c) old v) st.
+
+Fixpoint h_run (c : scfg) (bounds : list Z) (h : list aev) (st : hpoints) : list hpoints :=
+  match h with
+  | [] => []
+  | AMeasure a v :: r => h_run c bounds r (if ignores (s_kind c) v then st else h_record c bounds a v st)
+  | ACollect :: r => st :: h_run c bounds r (if resets c then [] else st)
+  end.
